@@ -30,6 +30,7 @@ type Node struct {
 	L    []*Node          // list
 	S    string           // scalar text
 	Lang [][2]string      // lang: sorted (tag, text)
+	V    bool             // obj: embedded by value in an interface (informational; not part of equality, N2)
 }
 
 var (
@@ -125,7 +126,11 @@ func of(v reflect.Value, m Mode, single bool) *Node {
 		if v.IsNil() {
 			return nil
 		}
-		return of(v.Elem(), m, single)
+		n := of(v.Elem(), m, single)
+		if n != nil && n.K == "obj" && v.Kind() == reflect.Interface && v.Elem().Kind() == reflect.Struct {
+			n.V = true
+		}
+		return n
 	case reflect.String:
 		if v.Len() == 0 {
 			return nil
@@ -409,6 +414,25 @@ func diff(path, owner string, a, b *Node, out *[]Delta) {
 			*out = append(*out, Delta{Path: path, Owner: owner, Symptom: "changed", Class: a.Class(), Want: a, Got: b})
 		}
 	}
+}
+
+// Clone deep-copies a tree.
+func (n *Node) Clone() *Node {
+	if n == nil {
+		return nil
+	}
+	c := &Node{K: n.K, T: n.T, S: n.S, V: n.V}
+	if n.F != nil {
+		c.F = make(map[string]*Node, len(n.F))
+		for k, v := range n.F {
+			c.F[k] = v.Clone()
+		}
+	}
+	for _, e := range n.L {
+		c.L = append(c.L, e.Clone())
+	}
+	c.Lang = append(c.Lang, n.Lang...)
+	return c
 }
 
 // LastTerm is the last term of a path.
